@@ -71,6 +71,19 @@ def _models(draw, stratum):
         for i in range(n):
             m = draw(gen.any_model(gen.PAIR_TARGETS, 1, 3, depth=0, tables=False, customs=False))
             cs = draw(gen.custom_forms(3, 2, last_feature="custom"))
+            if draw(st.booleans()):
+                # hand-made pair of formulas that certainly read their parameters: g calls f with other arguments
+                V = lambda nm: {"o": "var", "n": nm}
+                N = lambda x: {"o": "num", "v": x}
+                fexpr = draw(st.sampled_from([
+                    {"o": "+", "a": {"o": "*", "a": V("a"), "b": V("r")}, "b": V("b0")},
+                    {"o": "+", "a": {"o": "/", "a": V("a"), "b": {"o": "+", "a": N(1.0), "b": {"o": "*", "a": V("r"), "b": V("r")}}},
+                     "b": {"o": "*", "a": V("b0"), "b": V("r")}}]))
+                call = {"o": "custom", "f": "nestf", "args": [V("r"), {"o": "*", "a": N(draw(st.sampled_from([2, 0.5, 3]))), "b": V("q")},
+                                                             N(draw(st.sampled_from([0.5, 1.25, -1])))]}
+                gexpr = draw(st.sampled_from([{"o": "+", "a": {"o": "*", "a": V("q"), "b": call}, "b": V("r")},
+                                              {"o": "-", "a": call, "b": {"o": "*", "a": V("q"), "b": V("r")}}]))
+                cs = [{"name": "nestf", "params": ["r", "a", "b0"], "expr": fexpr}, {"name": "nestg", "params": ["r", "q"], "expr": gexpr}]
             g = cs[-1]
             called = []
 
@@ -204,7 +217,7 @@ def strategy(tier):
 
 def strata(tier):
     return [("mixed", _case("mixed"), 4), ("shared_names", _case("shared_names"), 2.5), ("shared_caller", _case("shared_caller"), 2), ("underspecified", _case("underspecified"), 3),
-            ("failing_evals", _case("failing_evals"), 3), ("nested_forms", _case("nested_forms"), 2),
+            ("failing_evals", _case("failing_evals"), 3), ("nested_forms", _case("nested_forms"), 3),
             ("shared_elements", _case("shared_elements"), 2)]
 
 
@@ -370,7 +383,11 @@ def _run_fixed(items):
     p = subprocess.run([sys.executable, "-W", "ignore", "-c", bootstrap.repo_python_shim() + _CHILD, "fixed"],
                        input=json.dumps(items).encode(), stdout=subprocess.PIPE, stderr=subprocess.PIPE, env=env, timeout=600)
     if p.returncode != 0:
-        raise RuntimeError("child failed: %s" % p.stderr.decode()[-500:])
+        if p.returncode < 0:
+            # the interpreter died of a signal (a crash inside an extension module): keep the input
+            with open("/var/tmp/c12_child_crash.json", "w") as f:
+                json.dump(items, f)
+        raise RuntimeError("child failed (status %r): %s" % (p.returncode, p.stderr.decode()[-500:]))
     res = json.loads(p.stdout.decode().strip().splitlines()[-1])
     return [tuple(res[str(i)]) for i in range(len(items))]
 
